@@ -152,6 +152,30 @@ def run(ctx):
     # derived from it afterwards must see the write (exported model run == eager evaluation)
     mixed = families.mixed_write_cases(rnd, 60 if ctx.tier == "quick" else 600)
     family.evaluate(ctx, mixed, want=("traced",))
+    # augmented operators == out-of-place form, also when the other operand promotes the result to another dtype
+    aug = []
+    for i in range(40 if ctx.tier == "quick" else 400):
+        d = rnd.choice(["int64", "int32", "uint8", "float32", "nint64", "int16"])
+        sh = [rnd.choice([1, 2, 3])]
+        a = ops.tensor(rnd, d, sh, "small")
+        other = rnd.choice(["0.5", "2", "ndx.asarray(np.array([1.5], dtype=np.float64))", "ndx.asarray(np.array([3], dtype=np.int64))", "ndx.asarray(np.array([2], dtype=np.int16))", "1.0"])
+        sym = rnd.choice(["+", "-", "*"])
+        impl = f"t = a.copy(); t {sym}= {other}; out = [t, a {sym} {other}, a]"
+        aug.append({"id": f"AU-{i}", "inputs": {"a": a}, "impl": impl, "oracle": None, "eager": True, "lazy_subsets": [{"names": ["a"]}],
+                    "meta": {"func": "augmented", "dtype": d, "dclass": family.dclass(d), "other": other, "op": sym}})
+    ares = core.run_cases("harness.h_ops", aug, workers=14, per_case_timeout=120)
+    for c in aug:
+        r = ares.get(c["id"]) or {}
+        ctx.count(("aug", c["impl"], c["meta"]["dtype"]), nontrivial=True)
+        outs = [("eager", (r.get("eager") or {}).get("ok"))] + [("traced", run_.get("ok")) for t in r.get("traced", []) for run_ in t.get("runs", [])]
+        for mode, o in outs:
+            if not o or "tuple" not in o:
+                continue
+            t_, e_, _a = o["tuple"]
+            why = ops.cmp_arrays(t_, e_)
+            if why:
+                ctx.finding({"func": "augmented", "kind": "differs-from-out-of-place", "dtype": c["meta"]["dtype"], "why": why, "mode": mode},
+                            f"`t {c['meta']['op']}= {c['meta']['other']}` on {c['meta']['dtype']} ({mode}): {str(t_)[:90]} but `a {c['meta']['op']} {c['meta']['other']}` is {str(e_)[:90]} ({why})", family.replay_of(c, r, mode))
     # alias table
     ac = alias_cases(rnd)
     res = core.run_cases("harness.h_ops", ac, workers=14, per_case_timeout=120)
